@@ -43,6 +43,7 @@ def strongest_line(c, f_in, amp=1.0, nfit=1 << 15):
 def run(ctx):
     broken = common.proof_stage(ctx, ["SoxrModel.Properties.C02"], "C02", exes=(), gens=())
     S.harness()
+    S.set_active("C02")
     rng = ctx.rng
     quick = ctx.quick
 
@@ -228,8 +229,10 @@ def run(ctx):
                       % name, {"missing_class": name, "classes_hit": sorted(classes_hit)}, no_input=True)
     ctx.count("f1_signature_configurations_set_aside", len(f1_seen))
     for txt in S.pool_map(probe_f1_image, [r["cfg"] for r in f1_seen[:4]]):
-        if txt:
+        if txt and "F1" in S.ACTIVE:
             ctx.known("F1", txt)
+        elif txt:
+            ctx.violation("C02: " + txt, {"finding": "F1 is not listed as known for this property any more", "what": txt}, no_input=True)
 
     ctx.cov["worst_margins"] = {k: round(v, 5) for k, v in sorted(worst.items())}
     ctx.cov["worst_margins_note"] = "ratios measured/bound (< 1 holds); bound = 2^-bits of the tone's amplitude (6.02 dB per bit)"
